@@ -109,6 +109,10 @@ def call_numpy(it, name, mod, fn, args, kwargs, node, fr):
         r_ = imgdom.stack_tile(args[0], args[1], None)
         if r_ is not None:
             return r_
+    if mod == "numpy.fft" and args and fn in ("fftfreq",):
+        r_ = imgdom.fftfreq(it, args, kwargs, node)
+        if r_ is not None:
+            return r_
     if mod == "numpy.fft" and args:
         if fn in ("fftshift", "ifftshift"):
             return imgdom.do_shift(it, fn, args[0], args, kwargs, node)
